@@ -3,6 +3,7 @@ package c18
 import (
 	"bytes"
 	"encoding/hex"
+	"encoding/json"
 	"fmt"
 	"io"
 	"os"
@@ -152,18 +153,20 @@ func WriteYAML(entries []pair, kindOf func(path string) string) string {
 // ---- the run side ----
 
 type runner struct {
-	c      *hx.Ctx
-	fs     []Field
-	fl     []Flag
-	work   string
-	n      int
-	prist  []string // pristine defaults (table order)
-	own    bool
-	byYAML map[string]int
+	c        *hx.Ctx
+	fs       []Field
+	fl       []Flag
+	work     string
+	n        int
+	prist    []string // pristine defaults (table order)
+	own      bool
+	byYAML   map[string]int
+	slots    map[string]*gslot // genesis paths of the running scenario
+	cfgHomes map[string]string // homes re-used by `save at=<n>` in the running scenario
 }
 
 func newRunner(c *hx.Ctx) *runner {
-	r := &runner{c: c, fs: Fields(), byYAML: map[string]int{}}
+	r := &runner{c: c, fs: Fields(), byYAML: map[string]int{}, slots: map[string]*gslot{}, cfgHomes: map[string]string{}}
 	r.fl, _ = Flags(false)
 	ScrubEnv(r.fs, r.fl)
 	p := DeepCopy(pristine)
@@ -449,7 +452,7 @@ func (r *runner) doFlagReach(o hx.Op) {
 		}
 		switch {
 		case len(reached) == 0:
-			r.c.Report("C18/flag-ignored/"+fl[0].K, fmt.Sprintf("--%s=%q changes no option of the loaded configuration (it binds viper key %q; no field decodes from it)", fl[0].K, fl[0].V, key))
+			r.c.Report("C18/flag-ignored/"+fl[0].K, fmt.Sprintf("--%s=%q changes no option of the loaded configuration (it names the option %q: the flag is bound to a key no field decodes from)", fl[0].K, fl[0].V, key))
 		case len(named) != 1 || len(reached) != 1 || reached[0] != named[0]:
 			r.c.Report("C18/flag-wrong-target/"+fl[0].K, fmt.Sprintf("--%s names %v and reaches %v", fl[0].K, named, reached))
 		}
@@ -484,8 +487,22 @@ func (r *runner) doSave(o hx.Op, exotic bool) {
 			return
 		}
 	}
-	home := r.home()
-	defer os.RemoveAll(home)
+	// `at=<n>`: the scenario's home number n, which keeps the file an earlier save of the scenario
+	// wrote (longer or shorter than this one); otherwise a fresh home for this op only
+	var home string
+	if at, okAt := slotName(o); !okAt {
+		r.c.Emit("bad-op")
+		return
+	} else if at == "" {
+		home = r.home()
+		defer os.RemoveAll(home)
+	} else if h, seen := r.cfgHomes[at]; seen {
+		home = h
+		r.c.Hit("save:overwrite")
+	} else {
+		home = r.home()
+		r.cfgHomes[at] = home
+	}
 	cfg.RootDir = home
 	want := Snapshot(&cfg, r.fs)
 	if err := func() (err error) {
@@ -516,10 +533,19 @@ func (r *runner) doSave(o hx.Op, exotic bool) {
 	pv := viper.New()
 	pv.SetConfigFile(cfg.ConfigPath())
 	parseErr := pv.ReadInConfig()
+	// the one known cause of an unparsable file: a string option equal to "?" / starting with "? "
+	qmark := false
+	for i, f := range r.fs {
+		if isOption(f) && f.Kind == "string" && (want[i] == "?" || strings.HasPrefix(want[i], "? ")) {
+			qmark = true
+		}
+	}
 	for i, f := range r.fs {
 		if isOption(f) && got[i] != want[i] {
 			w, g := want[i], got[i]
 			switch {
+			case parseErr != nil && !qmark:
+				r.c.Report("C18/saveload/file-unparsable", fmt.Sprintf("SaveAsYaml left a file viper cannot parse (%v) although no option holds a value known to be written wrongly; saved %s=%q, loaded %q", parseErr, f.Go, w, g))
 			case parseErr != nil:
 				r.c.Report("C18/saveload/file-unparsable-silently-ignored", fmt.Sprintf("SaveAsYaml wrote a file viper cannot parse (%v); Load ignores the error and silently returns the defaults (saved %s=%q, loaded %q)", parseErr, f.Go, w, g))
 			case f.Kind == "string" && strings.Contains(w, "\r"):
@@ -563,6 +589,10 @@ const zeroUnix = -62135596800
 func genesisErrClass(err error) string {
 	m := err.Error()
 	switch {
+	case strings.Contains(m, "genesis file not found"):
+		return "nofile"
+	case strings.Contains(m, "invalid genesis file"), strings.Contains(m, "failed to read genesis file"):
+		return "unparsable"
 	case strings.Contains(m, "chain_id"):
 		return "chain_id"
 	case strings.Contains(m, "initial_height"):
@@ -575,6 +605,123 @@ func genesisErrClass(err error) string {
 	return "other"
 }
 
+// gslot is one genesis path that lives for a whole scenario (`at=<n>`): what the last Save wrote
+// there, and how long the longest file ever written there was.
+type gslot struct {
+	home   string
+	path   string
+	saved  bool
+	g      genesis.Genesis
+	cond   string // "" = the last genesis saved here is valid, else the first condition Validate must name
+	off    int    // zone offset (minutes) of the saved time
+	maxLen int64  // size of the longest file Save ever left at this path
+	writes int
+}
+
+func (r *runner) dropSlots() {
+	for _, s := range r.slots {
+		_ = os.RemoveAll(s.home)
+	}
+	r.slots = map[string]*gslot{}
+	for _, h := range r.cfgHomes {
+		_ = os.RemoveAll(h)
+	}
+	r.cfgHomes = map[string]string{}
+}
+
+func (r *runner) slot(name string) *gslot {
+	if s, ok := r.slots[name]; ok {
+		return s
+	}
+	home := r.home()
+	path := genesis.GenesisPath(home)
+	_ = os.MkdirAll(filepath.Dir(path), 0o755)
+	s := &gslot{home: home, path: path}
+	r.slots[name] = s
+	return s
+}
+
+// invalidCond is the oracle of "an invalid genesis", written directly from the property's list.
+func invalidCond(cid string, ih uint64, t time.Time, pa []byte) string {
+	switch {
+	case len(cid) == 0:
+		return "chain_id"
+	case ih < 1:
+		return "initial_height"
+	case t.Unix() == zeroUnix && t.Nanosecond() == 0:
+		return "da_start_time"
+	case pa == nil:
+		return "proposer_address"
+	}
+	return ""
+}
+
+// loadBack loads the genesis file at s.path with the real LoadGenesis and compares with what the
+// last Save wrote there. Returns the observation.
+func (r *runner) loadBack(s *gslot, again bool) string {
+	g, cond := s.g, s.cond
+	how := "written by Save"
+	if again {
+		how = "written by an earlier Save of this scenario (loaded again later)"
+	}
+	back, err := genesis.LoadGenesis(s.path)
+	if err != nil {
+		cl := genesisErrClass(err)
+		switch {
+		case cl == "unparsable" || cl == "nofile" || cl == "other":
+			// refused for a reason that has nothing to do with the genesis itself: the file is damaged
+			sz := int64(-1)
+			if st, e := os.Stat(s.path); e == nil {
+				sz = st.Size()
+			}
+			want, _ := json.MarshalIndent(g, "", "  ")
+			sig := "C18/genesis/roundtrip/" + cl
+			if cl == "unparsable" && s.writes > 1 && sz > int64(len(want)) {
+				sig = "C18/genesis/roundtrip/unparsable-after-overwrite"
+			}
+			if cond == "" {
+				r.c.Report(sig, fmt.Sprintf("a valid genesis %s is not loaded back by LoadGenesis: %v (path written %d times; file has %d bytes, the document saved last has %d; longest file ever at this path %d)", how, err, s.writes, sz, len(want), s.maxLen))
+			} else if cl != "nofile" {
+				r.c.Report(sig, fmt.Sprintf("the genesis file %s cannot be parsed: %v (path written %d times; file has %d bytes, the document saved last has %d)", how, err, s.writes, sz, len(want)))
+			}
+		case cond == "":
+			r.c.Report("C18/genesis/roundtrip/refused", "a valid genesis "+how+" is refused by LoadGenesis: "+err.Error())
+		}
+		return "err:" + cl
+	}
+	if cond != "" {
+		r.c.Report("C18/genesis/invalid-loaded/"+cond, fmt.Sprintf("LoadGenesis accepts a genesis file with invalid %s", cond))
+	}
+	_, boff := back.GenesisDAStartTime.Zone()
+	switch {
+	case back.ChainID != g.ChainID:
+		r.c.Report("C18/genesis/roundtrip/chain_id", fmt.Sprintf("%q -> %q", g.ChainID, back.ChainID))
+	case back.InitialHeight != g.InitialHeight:
+		r.c.Report("C18/genesis/roundtrip/initial_height", fmt.Sprintf("%d -> %d", g.InitialHeight, back.InitialHeight))
+	case !back.GenesisDAStartTime.Equal(g.GenesisDAStartTime) || boff != s.off*60:
+		r.c.Report("C18/genesis/roundtrip/da_start_time", fmt.Sprintf("%v -> %v", g.GenesisDAStartTime, back.GenesisDAStartTime))
+	case !bytes.Equal(back.ProposerAddress, g.ProposerAddress) || (back.ProposerAddress == nil) != (g.ProposerAddress == nil):
+		r.c.Report("C18/genesis/roundtrip/proposer_address", fmt.Sprintf("%x -> %x", g.ProposerAddress, back.ProposerAddress))
+	}
+	bt := back.GenesisDAStartTime
+	pas := "nil"
+	if back.ProposerAddress != nil {
+		pas = hx.Hex(back.ProposerAddress)
+	}
+	return fmt.Sprintf("ok cid=%s ih=%d t=%d.%d off=%d pa=%s", hexS(back.ChainID), back.InitialHeight, bt.Unix(), bt.Nanosecond(), boff/60, pas)
+}
+
+// slotName: "" = a fresh path for this op only; ok=false = malformed
+func slotName(o hx.Op) (string, bool) {
+	if !o.Has("at") {
+		return "", true
+	}
+	n, ok := o.U64("at")
+	return strconv.FormatUint(n, 10), ok
+}
+
+// doGenesis: Validate, Save to a path (a fresh one, or the scenario's path `at=<n>`, which may
+// already hold an earlier - longer or shorter - genesis file), LoadGenesis.
 func (r *runner) doGenesis(o hx.Op) {
 	cid, err1 := hx.UnHex(o.Str("cid"))
 	ih, okIH := o.U64("ih")
@@ -604,24 +751,14 @@ func (r *runner) doGenesis(o hx.Op) {
 		b, e := hex.DecodeString(ps)
 		okPA, pa = e == nil && o.Has("pa"), b
 	}
-	if err1 != nil || !o.Has("cid") || !okIH || err2 != nil || !okT || !okPA {
+	at, okAt := slotName(o)
+	if err1 != nil || !o.Has("cid") || !okIH || err2 != nil || !okT || !okPA || !okAt {
 		r.c.Emit("bad-op")
 		return
 	}
 	t = t.In(time.FixedZone("op", int(off)*60))
 	g := genesis.NewGenesis(string(cid), ih, t, pa)
-	// the oracle, written directly from the property's list
-	cond := ""
-	switch {
-	case len(cid) == 0:
-		cond = "chain_id"
-	case ih < 1:
-		cond = "initial_height"
-	case t.Unix() == zeroUnix && t.Nanosecond() == 0:
-		cond = "da_start_time"
-	case pa == nil:
-		cond = "proposer_address"
-	}
+	cond := invalidCond(string(cid), ih, t, pa)
 	val := "ok"
 	if err := g.Validate(); err != nil {
 		val = "err:" + genesisErrClass(err)
@@ -631,43 +768,55 @@ func (r *runner) doGenesis(o hx.Op) {
 	} else if cond != "" {
 		r.c.Report("C18/genesis/validate-accepts-invalid/"+cond, fmt.Sprintf("Validate accepts %+v", g))
 	}
-	home := r.home()
-	defer os.RemoveAll(home)
-	path := genesis.GenesisPath(home)
-	_ = os.MkdirAll(filepath.Dir(path), 0o755)
+	var s *gslot
+	if at == "" {
+		home := r.home()
+		defer os.RemoveAll(home)
+		path := genesis.GenesisPath(home)
+		_ = os.MkdirAll(filepath.Dir(path), 0o755)
+		s = &gslot{path: path}
+	} else {
+		s = r.slot(at)
+	}
 	ld := ""
-	if err := g.Save(path); err != nil {
+	if err := g.Save(s.path); err != nil {
 		r.c.Report("C18/genesis/save-error", err.Error())
 		ld = "err:save"
-	} else if back, err := genesis.LoadGenesis(path); err != nil {
-		ld = "err:" + genesisErrClass(err)
-		if cond == "" {
-			r.c.Report("C18/genesis/roundtrip/refused", "a valid genesis written by Save is refused by LoadGenesis: "+err.Error())
-		}
 	} else {
-		if cond != "" {
-			r.c.Report("C18/genesis/invalid-loaded/"+cond, fmt.Sprintf("LoadGenesis accepts a genesis file with invalid %s", cond))
+		s.saved, s.g, s.cond, s.off = true, g, cond, int(off)
+		s.writes++
+		if st, e := os.Stat(s.path); e == nil && st.Size() > s.maxLen {
+			s.maxLen = st.Size()
 		}
-		_, boff := back.GenesisDAStartTime.Zone()
-		switch {
-		case back.ChainID != g.ChainID:
-			r.c.Report("C18/genesis/roundtrip/chain_id", fmt.Sprintf("%q -> %q", g.ChainID, back.ChainID))
-		case back.InitialHeight != g.InitialHeight:
-			r.c.Report("C18/genesis/roundtrip/initial_height", fmt.Sprintf("%d -> %d", g.InitialHeight, back.InitialHeight))
-		case !back.GenesisDAStartTime.Equal(g.GenesisDAStartTime) || boff != int(off)*60:
-			r.c.Report("C18/genesis/roundtrip/da_start_time", fmt.Sprintf("%v -> %v", g.GenesisDAStartTime, back.GenesisDAStartTime))
-		case !bytes.Equal(back.ProposerAddress, g.ProposerAddress) || (back.ProposerAddress == nil) != (g.ProposerAddress == nil):
-			r.c.Report("C18/genesis/roundtrip/proposer_address", fmt.Sprintf("%x -> %x", g.ProposerAddress, back.ProposerAddress))
+		if s.writes > 1 {
+			r.c.Hit("genesis:overwrite")
 		}
-		bt := back.GenesisDAStartTime
-		pas := "nil"
-		if back.ProposerAddress != nil {
-			pas = hx.Hex(back.ProposerAddress)
-		}
-		ld = fmt.Sprintf("ok cid=%s ih=%d t=%d.%d off=%d pa=%s", hexS(back.ChainID), back.InitialHeight, bt.Unix(), bt.Nanosecond(), boff/60, pas)
+		ld = r.loadBack(s, false)
 	}
 	r.c.Hit("genesis:" + val)
 	r.c.Emit("val=%s load=%s", val, ld)
+}
+
+// doGLoad: load what the scenario's path `at=<n>` holds now (nothing was ever saved there: refused).
+func (r *runner) doGLoad(o hx.Op) {
+	at, ok := slotName(o)
+	if !ok || at == "" {
+		r.c.Emit("bad-op")
+		return
+	}
+	s := r.slot(at)
+	if !s.saved {
+		if _, err := genesis.LoadGenesis(s.path); err == nil {
+			r.c.Report("C18/genesis/missing-file-loaded", "LoadGenesis returns a genesis for a path where no file exists")
+			r.c.Emit("load=ok")
+		} else {
+			r.c.Emit("load=err:%s", genesisErrClass(err))
+		}
+		r.c.Hit("gload:nofile")
+		return
+	}
+	r.c.Hit("gload")
+	r.c.Emit("load=%s", r.loadBack(s, true))
 }
 
 func Run(c *hx.Ctx) {
@@ -688,6 +837,7 @@ func Run(c *hx.Ctx) {
 			switch o.Verb {
 			case "reset":
 				RestoreDefaults()
+				r.dropSlots()
 				c.Emit("ok")
 			case "load":
 				r.doLoad(o)
@@ -701,6 +851,8 @@ func Run(c *hx.Ctx) {
 				r.doSave(o, true)
 			case "genesis":
 				r.doGenesis(o)
+			case "gload":
+				r.doGLoad(o)
 			default:
 				c.Emit("bad-op")
 			}
